@@ -103,6 +103,7 @@ THEOREMS = [
     "IrVerif.AtomicSave.C08_sharded_concurrent_nested_crash",
     "IrVerif.AtomicSave.C08_nested_bytes_serial",
     "IrVerif.AtomicSave.C08_nested_bytes_parallel",
+    "IrVerif.AtomicSave.C08_sharded_concurrent_nested_exception",
 ]
 ASSUMPTIONS = [
     "os.replace is atomic; tempfile.mkdtemp returns a directory that did not exist (built into the model's Path type; "
